@@ -125,6 +125,8 @@ class Typer:
                         self.defs.setdefault(t.id, []).append(('val', n.value))
             elif isinstance(n, ast.AnnAssign) and isinstance(n.target, ast.Name):
                 self.defs.setdefault(n.target.id, []).append(('ann', n.annotation))
+                if n.value is not None:
+                    self.defs[n.target.id].append(('val', n.value))
             elif isinstance(n, (ast.For, ast.comprehension)):
                 if isinstance(n.target, ast.Name):
                     self.defs.setdefault(n.target.id, []).append(('elem', n.iter))
